@@ -78,7 +78,8 @@ CHECKS = {
                        "is closed after the terminal notification or on unsubscription; the producer's own calls never panic and never stay blocked once the consumer has unsubscribed. "
                        "FromChannel: every value sent before the close is delivered, then Complete; no completion without a close; after Unsubscribe nothing is delivered, later values "
                        "stay in the channel, and the reader goroutine exits (a leftover is reported when the bubble ends). ToSlice / ToMap / Collect equal the delivered values (last "
-                       "write wins), emitted once at completion; Materialize|Dematerialize is the identity on every word, including producers that go on after their terminal."),
+                       "write wins), emitted once at completion; Materialize|Dematerialize is the identity on every word, including producers that go on after their terminal."
+                       " Materialize|Dematerialize also over streams ending with Error(nil)."),
         "level_note": "A send that loses the race with the close is recovered inside the library and may reach OnUnhandledError: counted, not judged (it is the designated sink).",
     },
     "C16": {
@@ -95,7 +96,8 @@ CHECKS = {
                        "BufferWithTimeOrCount and WindowWhen(Interval) run inside synctest bubbles on generated timelines: nothing is delivered earlier than the statement allows, "
                        "periodic values are 0,1,2.., delayed values keep emission order, a timeout needs a full quiet period and never follows the source's terminal, sampled / "
                        "throttled / buffered outputs are a sub-sequence (prefix) of the source with at most one value per period, and nothing is delivered after Unsubscribe or "
-                       "(for the context-aware stages) cancellation. ThrottleTime, TimeInterval, Timestamp and Timeout-with-a-slow-observer run in real time with one-sided bounds."),
+                       "(for the context-aware stages) cancellation. ThrottleTime, TimeInterval, Timestamp and Timeout-with-a-slow-observer run in real time with one-sided bounds."
+                       " Delay / DelayEach with the context cancelled while a producer that does not watch the context goes on: nothing arrives early."),
         "level_note": "Only what the property states is asserted (lower bounds on time, order and count relations): exact firing times and losslessness are not.",
     },
     "C14": {
@@ -160,7 +162,8 @@ CHECKS = {
                        "interleaving is fed one notification at a time; after each step the output so far, which sources are subscribed, which must still be connected and "
                        "which must have been released are compared with a step model written from the property text and the documentation. Free-running goroutines: the "
                        "observed output must be the model's output for some interleaving compatible with each source's own order."
-                       " Free-running producers: one goroutine per source, repeated; the observed output must be a member of the set of model outputs over all interleavings; WindowWhen with source and boundary on two goroutines (and with a producer driven by window completions) is judged by a validity predicate (windows concatenate to the source's values, every window closed)."),
+                       " Free-running producers: one goroutine per source, repeated; the observed output must be a member of the set of model outputs over all interleavings; WindowWhen with source and boundary on two goroutines (and with a producer driven by window completions) is judged by a validity predicate (windows concatenate to the source's values, every window closed)."
+                       " Random arrival orders with up to 3 values per source (three sources included); GroupBy |> Take(n) |> MergeAll and a hand-written consumer that stops inside the Next delivering the n-th group: the item that opened a delivered group is not lost."),
         "level_note": ("Two listed findings pinned by the suite (TakeUntil/SkipUntil notifier error, SequenceEqual prefix comparison). The concurrent part only sees the schedules the "
                        "scheduler produces. FlatMap with asynchronous inners is covered through Concat + the cold-inner rows of C04."),
     },
@@ -178,7 +181,8 @@ CHECKS = {
                        "sequence up to length 3 (quick) / 4 (thorough) and every configuration in the small range, the output trace and the exact number of subscriptions of "
                        "every source must equal the model's, at most one attempt may be live at any time, and at each new subscription every earlier attempt must have "
                        "delivered its terminal and had its teardown run. Retry under cancellation: no further attempt and Error(context.Canceled)."
-                       " Asynchronous attempts are repeated in virtual time with teardowns that take time and a first notification that comes after the operator started waiting: the next attempt may only be subscribed once the previous teardown has FINISHED."),
+                       " Asynchronous attempts are repeated in virtual time with teardowns that take time and a first notification that comes after the operator started waiting: the next attempt may only be subscribed once the previous teardown has FINISHED."
+                       " Retry with a Delay (virtual time): spacing, budget, and a cancellation of the subscription context during a wait ends the stream at that instant whatever context the failed attempt's error carried."),
         "level_note": "Catch is a listed finding (fallback subscribed from inside the error callback). Retry with a Delay is exercised in the virtual-time check C16.",
     },
     "C11": {
@@ -229,7 +233,8 @@ CHECKS = {
                        "goroutine, from inside the observer's Next and from several goroutines at once: IsClosed is true as soon as Unsubscribe has returned, no callback "
                        "begins after that stamp, Wait returns, repeated Unsubscribe is harmless. For all 8 constructors with synchronous and asynchronous producers, 1-3 "
                        "concurrent Wait callers return only after the terminal callback has finished, never on an open stream, and always once it is closed. Collect on "
-                       "random chains returns exactly what an observer receives."),
+                       "random chains returns exactly what an observer receives."
+                       " Wait after termination when the source's teardown JOINS its other producer goroutines (safe constructors, Serialize)."),
         "level_note": "Asynchronous / queueing rows (Delay, ObserveOn, ToChannel, timers) are cut in the bubble-based checks C16/C17.",
     },
     "C03": {
@@ -247,7 +252,8 @@ CHECKS = {
                        "late Add runs immediately, all teardowns run before the joined panic is re-raised and it unwraps to every cause, Wait returns, IsClosed tells the "
                        "truth); races between the ways a subscription ends; and for every operator of the catalogue that, once the subscription is closed and Subscribe "
                        "has returned, each upstream subscription's teardown ran exactly once and a TapOnFinalize below the pipeline ran exactly once."
-                       " Higher-order operators (ConcatAll, MergeAll, CombineLatestAll, ZipAll, MergeMap, FlatMap) are also fed by an ASYNCHRONOUS outer producer and cut from outside at every position: every inner source released, the producer not left blocked inside the operator, nothing delivered afterwards."),
+                       " Higher-order operators (ConcatAll, MergeAll, CombineLatestAll, ZipAll, MergeMap, FlatMap) are also fed by an ASYNCHRONOUS outer producer and cut from outside at every position: every inner source released, the producer not left blocked inside the operator, nothing delivered afterwards."
+                       " MergeAll / MergeMap over a LIVE outer observable (inners arriving over time, interleaved with the notifications of the running ones, optional Take downstream): per-inner live count after every step and after the cut."),
         "level_note": ("Race part is statistical. Goroutine-leak freedom of asynchronous rows is asserted in the bubble-based checks (C14/C16/C17), not here."),
     },
     "C08": {
@@ -265,7 +271,8 @@ CHECKS = {
                        "prefix, each delivered on the caller's goroutine and finished inside the call (logical stamps). Hand-off clause: ObserveOn/SubscribeOn/"
                        "ToChannel with capacities {0,1,2,3,8}, lengths around the capacity, slow consumers: FIFO without loss, terminal after every queued value, "
                        "producer never more than capacity+2 ahead."
-                       " The run-ahead bound is the tight one (values accepted from the producer and not yet handled by the consumer <= capacity + 1); hand-off cases are repeated with the subscription context cancelled before notification #j."),
+                       " The run-ahead bound is the tight one (values accepted from the producer and not yet handled by the consumer <= capacity + 1); hand-off cases are repeated with the subscription context cancelled before notification #j."
+                       " Several producers through Serialize, the safe constructors, Merge*, subjects, Share: each producer's Next returns only once the observer has handled THAT value."),
         "level_note": "The hand-off part runs in real time with real goroutines; only upper bounds and order/loss relations are asserted, so timing cannot raise an alarm.",
     },
     "C07": {
@@ -283,7 +290,8 @@ CHECKS = {
                        "faulted once, exhaustively over scripts of length <= 3 (quick) / 4 (thorough); rapid adds chains with one or two faults. Oracle: no panic escapes "
                        "Subscribe; the subscriber sees the values the model prescribes before the fault, then exactly one Error whose cause is the injected fault, then "
                        "nothing; faults in the observer's own Error/Complete callbacks reach OnUnhandledError; afterwards a fresh subscription to the same observable "
-                       "behaves like an unfaulted run (nothing left locked or closed)."),
+                       "behaves like an unfaulted run (nothing left locked or closed)."
+                       " Observers without an error callback: a Next panic reaches OnUnhandledError exactly once with its cause; an Error addressed to them surfaces exactly once through a hook."),
         "level_note": ("Two listed findings (known_findings.json) are reported as KNOWN-FINDING and excluded from the verdict by (operator, failure class). "
                        "Teardown panics belong to C03; faults in asynchronous rows to C05/C16 harnesses."),
     },
@@ -301,7 +309,8 @@ CHECKS = {
                        "Complete) and every context-aware operator callback: context non-nil, subscription marker visible, upstream marker visible wherever the stage "
                        "passes upstream notifications on, the item key of a value-preserving row's output is the key of the item it derives from, contexts returned "
                        "by WithContext callbacks are visible downstream, and every source is subscribed with the subscription context."
-                       " Time-driven and hand-off operators (Delay, DelayEach, Timeout, SampleTime, ThrottleTime, time buffers, ObserveOn, SubscribeOn and chains of them, Zip / CombineLatest / WindowWhen with timers) run in virtual time with the same markers: subscription value on every callback, item context travelling with its item, upstream value on forwarded terminals and on Timeout's own error once an item has passed."),
+                       " Time-driven and hand-off operators (Delay, DelayEach, Timeout, SampleTime, ThrottleTime, time buffers, ObserveOn, SubscribeOn and chains of them, Zip / CombineLatest / WindowWhen with timers) run in virtual time with the same markers: subscription value on every callback, item context travelling with its item, upstream value on forwarded terminals and on Timeout's own error once an item has passed."
+                       " Sources written with the context-less API (notifications arrive with context.Background()): what a context operator below the source attaches must be on every kind of notification."),
         "level_note": ("Documented exceptions are encoded, not filtered ad hoc: DefaultIfEmptyWithContext (explicit context), stages that never subscribe their source "
                        "(Take(0) ...), values a stage produces itself (StartWith prefixes, fallbacks). Hand-off/time rows (Delay, ObserveOn, Zip ...) are checked in C08/C16/C05 harnesses."),
     },
